@@ -1452,7 +1452,9 @@ def parse_bankacctinfos(acctinfos: Sequence[models.BANKACCTINFO]) -> ParsedAccti
             bankids.append(inf.bankid)
             args_[inf.accttype.lower()].append(inf.acctid)
 
-    args_["bankid"] = utils.collapseToSingle(bankids, "BANKIDs")
+    # No ACTIVE bank account: nothing to configure (don't fail the other account types)
+    if bankids:
+        args_["bankid"] = utils.collapseToSingle(bankids, "BANKIDs")
     return dict(args_)
 
 
@@ -1465,7 +1467,8 @@ def parse_invacctinfos(acctinfos: Sequence[models.INVACCTINFO]) -> ParsedAcctinf
             brokerids.append(acctfrom.brokerid)
             args_["investment"].append(acctfrom.acctid)
 
-    args_["brokerid"] = utils.collapseToSingle(brokerids, "BROKERIDs")
+    if brokerids:
+        args_["brokerid"] = utils.collapseToSingle(brokerids, "BROKERIDs")
     return dict(args_)
 
 
